@@ -886,7 +886,9 @@ def gen_case(rng, tier):
         # look-ahead steppers: value fields present in every record (the newest-vs-centre dispatch of the code is then moot)
         recs = [r + [(f, gen_value(rng, profile)) for f in s["fs"] if f not in dict(r)] for r in recs]
     if s["verb"] in ("most-frequent", "least-frequent") and len(groups_of(recs, s["gs"])) > 12:
-        s["gs"] = s["gs"][:1]                    # sort.Slice is a stable insertion sort only up to 12 elements
+        # sort.Slice is a stable insertion sort only up to 12 elements: beyond that the order among equal counts is not modelled;
+        # the case keeps its groups and is compared with the first-principles oracle only (---- extension block: no_model)
+        s["no_model"] = True
     return s, recs
 
 
@@ -1037,7 +1039,18 @@ def oracle_ext(s, recs, rows):
 
 
 def gen_case_ext(rng, tier, nrec, gvals, gs):
-    kind = rng.choice(["uniq-a", "uniq-a", "fill-empty", "top2", "top2", "top2", "step-slwin", "step-slwin", "step-slwin"])
+    kind = rng.choice(["uniq-a", "uniq-a", "fill-empty", "top2", "top2", "top2", "step-slwin", "step-slwin", "step-slwin", "frequent-many"])
+    if kind == "frequent-many":
+        # most/least-frequent over 13..30 groups (beyond the 12-element insertion sort of sort.Slice): first-principles oracle only
+        ngroups = rng.randint(13, 30)
+        recs = [[("b", "g%d" % rng.randint(0, ngroups - 1)), ("x", str(i))] for i in range(rng.choice([20, 40, 60]))]
+        recs += [[("b", "g%d" % i)] for i in range(ngroups) if rng.random() < 0.8]
+        rng.shuffle(recs)
+        s = {"verb": rng.choice(["most-frequent", "least-frequent"]), "gs": ["b"], "maxn": rng.choice([10, 10, 1, 3, 15, 40]), "b": rng.random() < 0.3,
+             "out": rng.choice(["count", "count", "n"]), "profile": "manygroups"}
+        if len(groups_of(recs, s["gs"])) > 12:
+            s["no_model"] = True
+        return s, recs
     if kind == "uniq-a":
         # few distinct records, repeated; the same fields in another order is another record
         base = gen_records(rng, "text", rng.choice([1, 2, 3, 4]), gvals)
@@ -1369,7 +1382,9 @@ def run(ctx):
                 d = {"what": "counts do not add up to the number of contributing records"}
             if d is not None:
                 oracle_bad.append((s, recs, rows, d))
-            if True:
+            if s.get("no_model"):                  # ---- extension block: oracle only (most/least-frequent with more than 12 groups)
+                ctx.dist("oracle-only:" + s["verb"])
+            else:
                 terms.append(f"({coq_spec(s)},\n {coq_records(recs)},\n {coq_obs(rows)})")
                 meta.append((s, recs, rows))
             if i in (3, 50, 200, 400):
